@@ -572,15 +572,21 @@ def run_cases(cm, pid, script, cases, tag, per=8, timeout=1800, jit=True, trace=
     return out, covs
 
 
-def coq_eval(cm, pid, header, exprs, tag, per_file, timeout=1500):
-    """cm.coq_eval_lines, re-tried once with smaller files and a longer limit when a file timed out
-    (rc 124/137: a busy machine must not look like a broken proof or model)"""
+def coq_eval(cm, pid, header, exprs, tag, per_file, timeout=1500, rebuild=None):
+    """cm.coq_eval_lines made robust against the machine: a file that timed out (rc 124/137) is re-tried once in
+    quarter-size files with twice the limit; "inconsistent assumptions" (somebody rebuilt a library we Require
+    while our files were being compiled) triggers a rebuild of `rebuild` (targets under coq/) and one re-try.
+    Neither may look like a broken proof or model."""
     if not exprs:
         return []
     try:
         return cm.coq_eval_lines(pid, header, exprs, tag=tag, per_file=per_file, timeout=timeout)
     except RuntimeError as e:
         msg = str(e)
+        if "inconsistent assumptions" in msg or "Cannot find a physical path" in msg or "No such file" in msg:
+            if rebuild:
+                cm.coq_build(rebuild)
+            return cm.coq_eval_lines(pid, header, exprs, tag=tag + "_retry", per_file=per_file, timeout=timeout)
         if "rc=124" in msg or "rc=137" in msg or "rc=-9" in msg:
             return cm.coq_eval_lines(pid, header, exprs, tag=tag + "_retry", per_file=max(1, per_file // 4), timeout=2 * timeout)
         raise
